@@ -74,7 +74,7 @@ static void mode_rt(void){
     int celt_only=(c.mode==VK_MODE_CELT); int maxd=(int)(0.003*c.Fs);
     /* (1) delay: only meaningful where the waveform is preserved (the frozen build itself reaches >= 12 dB SNR) */
     double sr=snr_db(ex,yr,n,c.dch,ci,la,skip), st=snr_db(ex,yt,n,c.dch,ci,la,skip); vc_min("snr_tree_minus_reference_db",st-sr);
-    if(sr>=12&&sig!=VS_SWEEP&&sig!=VS_VOICED&&sig!=VS_MULTITONE){ double dt=est_delay(ex,yt,n,c.dch,ci,la,maxd,skip), dr=est_delay(ex,yr,n,c.dch,ci,la,maxd,skip); double tol=celt_only?C04_DELAY_CELT_SAMPLES:C04_DELAY_SILK_MS*c.Fs/1000.0; if(tol<C04_DELAY_CELT_SAMPLES) tol=C04_DELAY_CELT_SAMPLES;
+    if(sr>=12&&sig!=VS_SWEEP&&sig!=VS_VOICED&&sig!=VS_MULTITONE&&ident!=5 /* pure sines: the cross-correlation peak is ambiguous by whole periods */){ double dt=est_delay(ex,yt,n,c.dch,ci,la,maxd,skip), dr=est_delay(ex,yr,n,c.dch,ci,la,maxd,skip); double tol=celt_only?C04_DELAY_CELT_SAMPLES:C04_DELAY_SILK_MS*c.Fs/1000.0; if(tol<C04_DELAY_CELT_SAMPLES) tol=C04_DELAY_CELT_SAMPLES;
       if(fabs(dr)<=tol){ vc_max(celt_only?"delay_error_samples_celt":"delay_error_samples_silk_hybrid",fabs(dt)); vc_max("delay_estimate_tree_minus_reference_samples",fabs(dt-dr)); { double tol_abs=celt_only?0.9:(0.15*c.Fs/1000.0>0.9?0.15*c.Fs/1000.0:0.9); /* the estimator's own noise (also present in the frozen build's estimate, which had to be within `tol`) must not turn into an alarm: the absolute bound stays below one sample / 0.15 ms, the sharp clause is the comparison with the frozen build */ if(fabs(dt)>tol_abs) tol=-1; }
         if(tol<0||fabs(dt-dr)>C04_DELAY_VS_REF_SAMPLES+(celt_only?0:0.02*c.Fs/1000.0)){ vc_viol("delay:mismatch","decoded signal is delayed by lookahead%+.3f samples (tolerance %.3f; frozen reference %+.3f) channel %d (%s)",dt,tol,dr,ci,desc); goto out; } vc_count("delays_checked",1); } else vc_count("delay_estimator_not_applicable",1); }
     /* (2) fidelity relative to the frozen build on the identical input */
